@@ -13,7 +13,9 @@ class Unit:
                  harness=None, setup='', args=None, post='', backend='cadical', timeout=600, mem_gb=12,
                  rec=False, cbmc_flags=(), props=(), note='', extra_c='', expect_fail=(), opaque=None,
                  split=False, tier='quick', unwindset=(), defines=(), extern_records=(), bounded=None,
-                 stubs=(), variants=None, pre_c='', object_bits=None, checks=None, bind=''):
+                 stubs=(), variants=None, pre_c='', object_bits=None, checks=None, bind='', ghost=(), bind_assigns=()):
+        self.ghost = list(ghost)    # [(ctype, name, entry expression over $this/$k)] -> per-function ghost entry bindings '@name'
+        self.bind_assigns = list(bind_assigns)
         self.bind = bind            # ghost assignments emitted before each contract-replaced call of this function
         self.id = id
         self.fn = fn                  # ('Class::name', signature or None)
@@ -118,6 +120,36 @@ def subst(text, f):
     return re.sub(r'\$(this|ret|L\d+|\d+)', rp, text)
 
 
+def ghost_name(name, cname):
+    return 'g_%s__%s' % (name, cname)
+
+
+def expand_ghost(text, unit, cname):
+    if not text:
+        return text
+    for ct, name, expr in unit.ghost:
+        text = re.sub(r'@%s\b' % name, ghost_name(name, cname), text)
+    return text
+
+
+def ghost_requires(unit, f):
+    return ''.join('__CPROVER_requires(%s == (%s))\n' % (ghost_name(n, f.cname), subst(e, f)) for ct, n, e in unit.ghost)
+
+
+def ghost_decls(unit, cname):
+    return ''.join('%s %s;\n' % (ct, ghost_name(n, cname)) for ct, n, e in unit.ghost)
+
+
+def ghost_bind(unit, cname):
+    """bind text in terms of $A0.. (call arguments)"""
+    out = []
+    for ct, n, e in unit.ghost:
+        ee = re.sub(r'\$this', '$A0', e)
+        ee = re.sub(r'\$(\d+)', lambda m: '$A%s' % m.group(1), ee)
+        out.append('%s = %s;' % (ghost_name(n, cname), ee))
+    return ' '.join(out)
+
+
 def find_one(ast, ref):
     q, sig = ref if isinstance(ref, (tuple, list)) else (ref, None)
     ds = ast.find_def(q, sig)
@@ -133,15 +165,17 @@ def build_c(ast, unit, registry):
     L = cdns2c.Lower(ast, opaque=opaque, extern_records=unit.extern_records)
     target_def = find_one(ast, unit.fn)
     tf = L.lower_function(target_def)
-    fns = [(tf, subst(unit.contract, tf), {k: subst(v, tf) for k, v in unit.loops.items()})]
+    callee_ghosts = []     # names assigned by bindings before replaced calls
+    fns = None
     have = {tf.cname}
+    inl_fns = []
     for ref in unit.inline:
         d = find_one(ast, ref)
         f = L.lower_function(d)
         if f.cname in have:
             continue
         have.add(f.cname)
-        fns.append((f, '', {}))
+        inl_fns.append((f, '', {}))
     protos = []
     replaced = []
     binds = {}
@@ -155,10 +189,19 @@ def build_c(ast, unit, registry):
         if f.cname in have:
             raise LowerError("%s both inlined and replaced" % f.cname)
         have.add(f.cname)
-        protos.append('%s\n%s;' % (f.proto, subst(ru.contract, f)))
+        protos.append('%s%s\n%s%s;' % (ghost_decls(ru, f.cname), f.proto, ghost_requires(ru, f),
+                                        subst(expand_ghost(ru.contract, ru, f.cname), f)))
         replaced.append(f.cname)
-        if ru.bind:
-            binds[f.cname] = ru.bind
+        b = (ru.bind + ' ' + ghost_bind(ru, f.cname)).strip()
+        if b:
+            binds[f.cname] = b
+        callee_ghosts += [ghost_name(n, f.cname) for ct, n, e in ru.ghost] + list(ru.bind_assigns)
+    binds_list = ', '.join(callee_ghosts)
+    tcontract = ghost_requires(unit, tf) + subst(expand_ghost(unit.contract, unit, tf.cname), tf)
+    if callee_ghosts:
+        tcontract += '\n__CPROVER_assigns(%s)\n' % binds_list
+    tloops = {k: subst(expand_ghost(v, unit, tf.cname), tf).replace('@BINDS', binds_list) for k, v in unit.loops.items()}
+    fns = [(tf, tcontract, tloops)] + inl_fns
     for ref in unit.stubs:
         if isinstance(ref, str):
             have.add(ref)      # C name of a library/virtual callee defined by the prelude
@@ -182,6 +225,7 @@ def build_c(ast, unit, registry):
         parts.append('#define %s' % d)
     parts.append(unit.pre_c)
     parts.append('#include "%s"' % unit.prelude)
+    parts.append(ghost_decls(unit, tf.cname))
     parts.append(types)
     # forward prototypes of all bodies
     for f, _, _ in fns:
@@ -254,6 +298,10 @@ def default_harness(unit, tf):
     if tf.ret != 'void':
         call = '%s r = %s' % (tf.ret, call)
     lines.append('  g_exc = 0;')
+    for ct, n, e in unit.ghost:
+        ee = e.replace('$this', '(%s)' % args[0])
+        ee = re.sub(r'\$(\d+)', lambda m: '(%s)' % args[int(m.group(1))], ee)
+        lines.append('  %s = %s;' % (ghost_name(n, tf.cname), ee))
     lines.append('  ' + call + ';')
     lines.append(unit.post)
     lines.append('  if (g_exc == 0) { CANARY("normal return reachable"); }')
@@ -334,7 +382,7 @@ def compile_unit(ast, unit, registry, wd, defines=()):
 
 
 def cbmc_cmd(unit, gb, extra=()):
-    cmd = ['cbmc', gb, '--json-ui', '--arrays-uf-always', '--object-bits', str(unit.object_bits or 12)] + CHECK_FLAGS
+    cmd = ['cbmc', gb, '--json-ui', '--arrays-uf-always', '--object-bits', str(unit.object_bits or 8)] + CHECK_FLAGS
     cmd += BACKENDS[unit.backend]
     for u in unit.unwindset:
         cmd += ['--unwindset', u]
